@@ -66,7 +66,7 @@ static void        end_query(ares_channel_t *channel, ares_server_t *server,
                              ares_query_t *query, ares_status_t status,
                              const ares_dns_record_t *dnsrec);
 
-static void        ares_query_remove_from_conn(ares_query_t *query)
+void ares_query_remove_from_conn(ares_query_t *query)
 {
   /* If its not part of a connection, it can't be tracked for timeouts either */
   ares_slist_node_destroy(query->node_queries_by_timeout);
